@@ -86,4 +86,17 @@ w('g2_mode_user', ['C11', 'C19'], 'MainState::process_mode_user', "a user can ma
    ['a', 'recv', 'other'], ['a', 'send', 'STATS u'], ['a', 'recv', 'stats'], ['a', 'send', 'LUSERS'], ['a', 'recv', 'lusers']],
   "panic or not any(' 502 ' in l for l in R['other']) or not any(' 481 ' in l for l in R['stats']) "
   "or not any(' 252 ' in l and ' 0 ' in l for l in R['lusers']) or not any(' 251 ' in l and '2 users and 0 invisible' in l for l in R['lusers'])")
+w('g2_whowas_count', ['C05', 'C06'], 'MainState::process_whowas',
+  'WHOWAS with a count above (or below) the length of the record aborts the handler or shows the wrong number of entries',
+  [reg('a', 'alice'), reg('b', 'bob'), ['b', 'send', 'NICK rob'], ['b', 'recv'], ['b', 'send', 'NICK bob'], ['b', 'recv'], ['b', 'send', 'NICK rob2'], ['b', 'recv'],
+   ['a', 'send', 'WHOWAS bob 100'], ['a', 'recv', 'big'], ['a', 'send', 'WHOWAS bob 1'], ['a', 'recv', 'one'], ['a', 'send', 'WHOWAS bob'], ['a', 'recv', 'all'],
+   ['a', 'send', 'WHOWAS nobody 5'], ['a', 'recv', 'none'], ['a', 'send', 'PING :alive'], ['a', 'recv', 'alive']],
+  "panic or 'a' in eof or sum(1 for l in R['big'] if ' 314 ' in l) != 2 or sum(1 for l in R['one'] if ' 314 ' in l) != 1 "
+  "or sum(1 for l in R['all'] if ' 314 ' in l) != 2 or not any(' 406 ' in l for l in R['none']) or not any('PONG' in l for l in R['alive'])")
+w('g2_kick_empties_channel', ['C16', 'C09', 'C04'], 'MainState::process_kick',
+  'a channel whose last members leave by KICK keeps existing (topic, modes, ranks survive; the next JOIN does not create a fresh channel)',
+  [reg('a', 'alice'), reg('b', 'bob'), reg('c', 'carol'), ['a', 'send', 'JOIN #ke'], ['a', 'recv'], ['b', 'send', 'JOIN #ke'], ['b', 'recv'], ['a', 'recv'],
+   ['a', 'send', 'TOPIC #ke :old topic'], ['a', 'send', 'MODE #ke +o bob'], ['a', 'recv'], ['b', 'recv'], ['a', 'send', 'PART #ke'], ['a', 'recv'], ['b', 'recv'],
+   ['b', 'send', 'KICK #ke bob :alone'], ['b', 'recv', 'kick'], ['c', 'send', 'LIST'], ['c', 'recv', 'list'], ['c', 'send', 'JOIN #ke'], ['c', 'recv', 'join']],
+  "panic or any('#ke' in l for l in R['list']) or any(' 332 ' in l for l in R['join']) or not any(' 353 ' in l and '~carol' in l for l in R['join'])")
 print('written')
